@@ -183,6 +183,9 @@ func (r *rewriter) selectStmt(c *astutil.Cursor, s *ast.SelectStmt) {
 		sw.Body.List = append(sw.Body.List, &ast.CaseClause{List: []ast.Expr{&ast.BasicLit{Kind: token.INT, Value: fmt.Sprint(idx)}}, Body: body})
 		idx++
 	}
+	// a select whose clauses all terminate is a terminating statement (it may end a function that returns a value);
+	// the switch is one only with a default clause - never taken: Select answers with a case index or -1
+	sw.Body.List = append(sw.Body.List, &ast.CaseClause{Body: []ast.Stmt{&ast.ExprStmt{X: call(ast.NewIdent("panic"), &ast.BasicLit{Kind: token.STRING, Value: `"vsched.Select returned an unknown case"`})}}})
 	def := "false"
 	if hasDefault {
 		def = "true"
